@@ -71,7 +71,12 @@ pub async fn serve(
                         },
                     );
                 }
-                "unregister" | "unregistered" => {
+                "unregister" => {
+                    // A stored request stops whichever handler is registered at that point,
+                    // whether or not its `.unregistered` made it to disk before a crash
+                    topic_states.remove(&(frame.context_id, topic.to_string()));
+                }
+                "unregistered" => {
                     // Only remove if handler_id matches
                     if let Some(meta) = &frame.meta {
                         if let Some(handler_id) = meta.get("handler_id").and_then(|v| v.as_str()) {
